@@ -4,8 +4,11 @@
   * the generator (`NumpyCodegenMapper`) is sound, refuses what it must, keeps outputs with their
     keys (`PtProofs.C14PyGen`: `Py.pygen_sound`, `Py.pygen_refuses`, `Py.outputs_aligned`);
   * the printer's parentheses are those Python's grammar needs (`PtProofs.C14Print`:
-    `Py.print_parse_roundtrip`, `Py.print_precedence_sound`).
+    `Py.print_parse_roundtrip`, `Py.print_precedence_sound`);
+  * what the program computes for an index lambda is the lambda's pointwise value
+    (`PtProofs.C14Chain`: `Py.il_value_pointwise`, through C19's `raise_sound`).
 -/
 import PtProofs.C14Slice
 import PtProofs.C14PyGen
 import PtProofs.C14Print
+import PtProofs.C14Chain
